@@ -225,13 +225,13 @@ class SSHChannel(log.Logger):
             self.buf += data
             return
         top = len(data)
-        if top > self.remoteWindowLeft:
+        windowFull = top > self.remoteWindowLeft
+        if windowFull:
             data, self.buf = (
                 data[: self.remoteWindowLeft],
                 data[self.remoteWindowLeft :],
             )
             self.areWriting = 0
-            self.stopWriting()
             top = self.remoteWindowLeft
         rmp = self.remoteMaxPacket
         write = self.conn.sendData
@@ -239,6 +239,10 @@ class SSHChannel(log.Logger):
         for offset in r:
             write(self, data[offset : offset + rmp])
         self.remoteWindowLeft -= top
+        if windowFull:
+            # Only now: what stopWriting() does (it may write or close) must
+            # see the window already charged and the remainder buffered.
+            self.stopWriting()
         if self.closing and not self.buf:
             self.loseConnection()  # try again
 
@@ -257,13 +261,13 @@ class SSHChannel(log.Logger):
             else:
                 self.extBuf.append([dataType, data])
             return
-        if len(data) > self.remoteWindowLeft:
+        windowFull = len(data) > self.remoteWindowLeft
+        if windowFull:
             data, self.extBuf = (
                 data[: self.remoteWindowLeft],
                 [[dataType, data[self.remoteWindowLeft :]]],
             )
             self.areWriting = 0
-            self.stopWriting()
         while len(data) > self.remoteMaxPacket:
             self.conn.sendExtendedData(self, dataType, data[: self.remoteMaxPacket])
             data = data[self.remoteMaxPacket :]
@@ -271,6 +275,9 @@ class SSHChannel(log.Logger):
         if data:
             self.conn.sendExtendedData(self, dataType, data)
             self.remoteWindowLeft -= len(data)
+        if windowFull:
+            # See write(): the hook runs once the window has been charged.
+            self.stopWriting()
         if self.closing:
             self.loseConnection()  # try again
 
